@@ -69,7 +69,8 @@ class MPFREngine_mod_core(Contract):
     params = {'self': 'MPFREngine', 'x': 'Float', 'y': 'Float', 'ctx': 'Context'}
     returns = 'Float'
     properties = ['C02']
-    options = {'chain': True}
+    # ~4 min of solver time (nonlinear product |floor| * c_y through the inlined exact multiply / add): thorough tier only
+    options = {'chain': True, 'solve_eqs': True, 'symbolic_tier': 'thorough'}
     no_use = ['Float___add__', 'Float___mul__', 'Float___neg__', 'RealFloat___add__', 'RealFloat___mul__',
               'RealFloat___neg__', 'Float_from_int', 'RealFloat_from_int', 'Float_from_real', 'RealFloat___int__']
     note = ('ASSUMED (axioms): sem(gmpy2.div)(x, y) = x / y for finite nonzero x, y: finite nonzero, sign = XOR, '
@@ -136,6 +137,7 @@ class MPFREngine_mod_core(Contract):
             'quotient_signed': implies(gen, qv == ite(qneg, -qcode, qcode)),
             # ... and the result is exactly x - floor(x / y) * y
             'finite': implies(gen, fl_finite(r)),
+            'exp': implies(gen, r._real._exp == e0 or r._real._c == 0 or qv == 0),
             'value': implies(gen, sv(r._real) * pow2(r._real._exp - e1)
                              == sv(x._real) * pow2(x._real._exp - e1) - psign * P * pow2(y._real._exp - e1)),
             # IEEE 754 6.3: an exact cancellation x - q*y is +0
